@@ -273,6 +273,30 @@ pub fn main(args: &Args) -> std::io::Result<()> {
                 if dots2.dots != dots.dots {
                     panic!("a reused hatcher places different dots");
                 }
+                // the library's own constant-interval patterns give what the equivalent hand-written patterns give;
+                // the option constructors are the defaults with one field set
+                {
+                    use lyon_algorithms::hatching::{RegularDotPattern, RegularHatchingPattern};
+                    let mut segs3: Vec<(u32, f32, f32, f32, Point, Point)> = Vec::new();
+                    Hatcher::new().hatch_path(path.iter(), &opts, &mut RegularHatchingPattern { interval: iv, callback: &mut |s: &HatchSegment| segs3.push((s.row, s.v, s.a.u, s.b.u, s.a.position, s.b.position)) });
+                    if segs3 != pat.segs {
+                        panic!("RegularHatchingPattern differs from a pattern with the same constant interval");
+                    }
+                    let mut dots3: Vec<(Point, u32, u32)> = Vec::new();
+                    Hatcher::new().dot_path(path.iter(), &dopts, &mut RegularDotPattern { row_interval: iv, column_interval: 0.5, callback: &mut |d: &Dot| dots3.push((d.position, d.column, d.row)) });
+                    if dots3 != dots.dots {
+                        panic!("RegularDotPattern differs from a pattern with the same constant intervals");
+                    }
+                    let (ho, hd) = (HatchingOptions::tolerance(tol), HatchingOptions::DEFAULT.with_tolerance(tol));
+                    let (ha, hb) = (HatchingOptions::angle(Angle::radians(angle)), HatchingOptions::DEFAULT.with_angle(Angle::radians(angle)));
+                    let (d1, d2) = (DotOptions::tolerance(tol), DotOptions::DEFAULT.with_tolerance(tol));
+                    let (d3, d4) = (DotOptions::angle(Angle::radians(angle)), DotOptions::DEFAULT.with_angle(Angle::radians(angle)));
+                    let same_h = |a: &HatchingOptions, b: &HatchingOptions| a.tolerance == b.tolerance && a.angle == b.angle && a.compute_tangents == b.compute_tangents && a.uv_origin == b.uv_origin;
+                    let same_d = |a: &DotOptions, b: &DotOptions| a.tolerance == b.tolerance && a.angle == b.angle && a.uv_origin == b.uv_origin;
+                    if !same_h(&ho, &hd) || !same_h(&ha, &hb) || !same_d(&d1, &d2) || !same_d(&d3, &d4) || !same_h(&HatchingOptions::default(), &HatchingOptions::DEFAULT) || !same_d(&DotOptions::default(), &DotOptions::DEFAULT) {
+                        panic!("an options constructor is not the default with one field set");
+                    }
+                }
                 (pat.segs, dots.dots)
             }));
             match r {
